@@ -149,9 +149,18 @@ func (e *Engine) verifyAll(keys []string, tier string, verbose bool, dump, only 
 			os.WriteFile(filepath.Join(dump, n+".smt2"), []byte(o.Query+"(check-sat)\n"), 0o644)
 		}
 	}
+	noRetry = map[string]bool{}
+	for _, k := range e.loadKnown() {
+		if k.Status == "known" {
+			noRetry[normOb(k.Obligation)] = true
+		}
+	}
 	runObligations(all, tmo)
 	return rs
 }
+
+// noRetry: obligations recorded as known findings (an undecided answer is expected for them).
+var noRetry = map[string]bool{}
 
 func runObligations(all []*Obligation, tmo int) {
 	var wg sync.WaitGroup
@@ -188,6 +197,34 @@ func runObligations(all []*Obligation, tmo int) {
 		}(o)
 	}
 	wg.Wait()
+	// second chance for obligations the solvers gave up on: a timeout is "undecided", and on a
+	// busy machine it may only mean the budget was too small. They are retried with four times
+	// the budget, a few at a time, before the result is reported.
+	var again []*Obligation
+	for _, o := range all {
+		if o.Expect == "unsat" && (o.Result.Status == "timeout" || o.Result.Status == "unknown") && len(o.Query) <= 4<<20 && !noRetry[normOb(o.Fn+"/"+o.Name)] {
+			again = append(again, o)
+		}
+	}
+	if len(again) > 0 && len(again) <= 12 {
+		sem2 := make(chan struct{}, 3)
+		for _, o := range again {
+			wg.Add(1)
+			go func(o *Obligation) {
+				defer wg.Done()
+				sem2 <- struct{}{}
+				defer func() { <-sem2 }()
+				first := o.Result
+				r := runQuery(o.Query, 4*tmo, true)
+				r.Seconds += first.Seconds
+				if r.Status == "unsat" || r.Status == "sat" {
+					r.Solver += " (retried with a longer budget)"
+					o.Result = r
+				}
+			}(o)
+		}
+		wg.Wait()
+	}
 }
 
 func (o *Obligation) ok() bool {
@@ -221,6 +258,11 @@ func report(rs []*FnResult, verbose bool) bool {
 					extra = " [" + trunc(strings.SplitN(o.Result.Output, "\n", 2)[0], 160) + "]"
 				}
 				fmt.Printf("  FAIL   %s / %s: %s%s (%s, %.2fs) at %s — %s\n", r.Display, o.Name, o.Result.Status, extra, o.Result.Solver, o.Result.Seconds, o.Pos, trunc(o.Desc, 140))
+			}
+		}
+		if verbose || os.Getenv("GVC_NOTES") != "" {
+			for _, n := range r.Notes {
+				fmt.Printf("  note   %s\n", n)
 			}
 		}
 		tag := "ok"
